@@ -45,6 +45,18 @@ class C01(Prop):
                 c = gen.gen_fed_cascade(rng)
             else:
                 c = gen.gen_dag_program(rng, max_nodes=mx, depth=rng.choice([0, 0, 1, 2]))
+            top = c["program"][-1]
+            outs = [o for n in top["nodes"] if n["kind"] != "graph" for o in n.get("dataOuts", [])]
+            if outs and len(c["program"]) == 1 and rng.random() < 0.3:
+                # a default selection narrows what is RETURNED (and which inputs are needed), it does not switch nodes off: every node
+                # whose inputs are satisfiable (e.g. through a binding) still runs exactly once
+                top["selected"] = rng.sample(outs, rng.randint(1, min(2, len(outs))))
+                already = {k for k, _ in top.get("bound", [])}
+                ext = [kv for kv in c["values"] if kv[0] not in already]
+                if ext and rng.random() < 0.7:
+                    k, v = rng.choice(ext)
+                    top["bound"] = list(top.get("bound", [])) + [[k, v]]
+                    c["values"] = [kv for kv in c["values"] if kv[0] != k]
             for runner in ("sync", "async"):
                 yield {"program": c["program"], "values": c["values"], "runner": runner, "late_renames": rng.random() < 0.5}
 
